@@ -82,6 +82,10 @@ BREAKING = [
     ('deepcopy-required-attr-dropped', 'C13', MAIN + 'elementraw.rs', r'\} else if required \{\n\s*return Err\(AutosarDataError::VersionIncompatibleData \{\n\s*version: target_version,\n\s*\}\);\n(\s*)\} else \{', '} else {', 'a required attribute that cannot be kept is dropped silently'),
     ('move-guard-one-sided', 'C07', MAIN + 'element.rs', r'if version != version_src \{', 'if (version as u32) > (version_src as u32) {', 'moves from an older into a newer file are accepted'),
     ('preserve-string-trimmed', 'C01', MAIN + 'parser.rs', r'let text = match std::str::from_utf8\(raw_text\) \{', 'let text = match std::str::from_utf8(trimmed_input) {', 'whitespace-preserving strings lose their padding'),
+    ('remove-shortname-guard-weakened', 'C07', MAIN + 'elementraw.rs', r'if self\.elemtype\.is_named\(\) && sub_element_locked\.elemname == ElementName::ShortName \{', 'if self.elemtype.is_named() && sub_element_locked.elemname == ElementName::ShortName && pos > 0 {', 'the SHORT-NAME (always at position 0) can be removed'),
+    ('remove-content-item-any-kind', 'C07', MAIN + 'element.rs', r'if let ElementContent::CharacterData\(_\) = element\.content\[position\] \{', 'if let ElementContent::CharacterData(_) | ElementContent::Element(_) = element.content[position] {', 'remove_character_content_item also removes sub-elements (without un-registering them)'),
+    ('move-at-no-lower-bound', 'C07', MAIN + 'elementraw.rs', r'if start_pos <= position && position <= end_pos \{\n(\s*)if model == model_src \{', 'if position <= end_pos {\n\\1if model == model_src {', 'a move to a position before the range is accepted'),
+    ('move-same-parent-last-position', 'C07', MAIN + 'elementraw.rs', r'if position < end_pos \{\n(\s*)self\.move_element_position', 'if position <= end_pos {\n\\1self.move_element_position', 'the defect repaired by d898a20 comes back'),
     ('set-attribute-string-no-version', 'C07', MAIN + 'elementraw.rs', r'if !version\.compatible\(attr_version\) \{', 'if !version.compatible(attr_version) && attr_version == 0 {', 'set_attribute_string accepts attributes of other versions'),
 ]
 
